@@ -237,7 +237,14 @@ def oracle_wrapper(case, rec):
     fit2 = rec.call(8, lf.linear_fit, x, y, _site='lf.linear_fit')
     if fit is FAILED or fit2 is FAILED:
         return
-    if not rec.check(isinstance(fit, tuple) and len(fit) == 2 and tuple(fit) == tuple(fit2), 'linear_fit:points-variant-differs', (fit, fit2)):
+    def near(u, v, scale=0.0):
+        # the (x, y) and the points variants are the same function of the same data: equal to rounding
+        u, v = float(u), float(v)
+        return u == v or (u != u and v != v) or abs(u - v) <= 1e-9 * max(abs(u), abs(v)) + 64 * lib.EPS * scale
+    sc_b = float(np.max(np.abs(y))) if n else 0.0
+    if not rec.check(isinstance(fit, tuple) and len(fit) == 2 and len(tuple(fit2)) == 2 and
+                     near(fit[1], fit2[1]) and near(fit[0], fit2[0], sc_b + abs(float(fit[1])) * float(np.max(np.abs(x)))),
+                     'linear_fit:points-variant-differs', (fit, fit2)):
         return
     b, mm = float(fit[0]), float(fit[1])
     # the endpoint fit passes through the first and the last point
@@ -258,7 +265,10 @@ def oracle_wrapper(case, rec):
     yhat = x * coef[1] + coef[0]
     tr = rec.call(8, lf.linear_transform_points, p, coef, _site='lf.linear_transform_points')
     if tr is not FAILED:
-        rec.check(np.array_equal(np.asarray(tr), yhat), 'linear_transform:not-m*x+b', (np.asarray(tr)[:4].tolist(), yhat[:4].tolist()))
+        tra = np.asarray(tr, dtype=float)
+        tol_tr = 4 * lib.EPS * (np.abs(x * coef[1]) + abs(coef[0]))
+        rec.check(tra.shape == yhat.shape and bool(np.all((np.abs(tra - yhat) <= tol_tr) | (tra == yhat) | (np.isnan(tra) & np.isnan(yhat)))),
+                  'linear_transform:not-m*x+b', (tra[:4].tolist(), yhat[:4].tolist()))
     nonneg_hat = bool(np.all(yhat > -1))
     pairs = [('rmse', m.rmse, True), ('smape', m.smape, True), ('rpd', m.rpd, True), ('rmspe', m.rmspe, True),
              ('rmsle', m.rmsle, nonneg_hat), ('linear_residuals', m.residuals, True)]
@@ -294,7 +304,7 @@ def oracle_wrapper(case, rec):
             continue
         a, bb = float(a), float(bb)
         tol = 1e-9 * (1 + abs(ref))
-        rec.check(a == bb or (a != a and bb != bb), 'wrapper:linear_r2-points-variant-differs', (a, bb))
+        rec.check(a == bb or (a != a and bb != bb) or abs(a - bb) <= tol, 'wrapper:linear_r2-points-variant-differs', (a, bb))
         rec.check(abs(a - ref) <= tol or (a != a and ref != ref), 'wrapper:linear_r2-%s-differs-from-metric' % variant, (a, ref))
     fr = rec.call(8, lf.linear_fit_residuals, x, y, _site='lf.linear_fit_residuals')
     if fr is not FAILED:
@@ -308,7 +318,7 @@ def oracle_wrapper(case, rec):
         vp = rec.call(8, lf.r2_points, p, _site='lf.r2_points')
         if v is not FAILED and vp is not FAILED:
             v, vp = float(v), float(vp)
-            rec.check(v == vp or (v != v and vp != vp), 'r2:points-variant-differs', (v, vp))
+            rec.check(v == vp or (v != v and vp != vp) or (well and abs(v - vp) <= 1e-9), 'r2:points-variant-differs', (v, vp))
             if ref is not None and well:
                 rec.check(abs(v - ref) <= 1e-6, 'r2:not-squared-pearson', (v, ref))
                 rec.tag('pearson:checked')
